@@ -576,6 +576,16 @@ func genC13Tools(t *rapid.T) CaseC17 {
 	}
 	at := rapid.IntRange(1, len(c.Calls)-1).Draw(t, "panicAt")
 	c.Calls[at].Tool = c.Tools[pi].Name
+	// tools built with tool/utils take JSON arguments (anything else fails before the tool body is entered)
+	kindOf := map[string]string{}
+	for _, d := range c.Tools {
+		kindOf[d.Name] = d.Kind
+	}
+	for i := range c.Calls {
+		if kindOf[c.Calls[i].Tool] == "utils" && !strings.HasPrefix(c.Calls[i].Args, "{") {
+			c.Calls[i].Args = `{"a":"x"}`
+		}
+	}
 	c.Order = nil
 	for i := range c.Calls {
 		o := rapid.IntRange(0, 500).Draw(t, "ord")
